@@ -86,7 +86,7 @@ def get_shape(spec):
             # then scale each axis to unit extent (no re-centring: a tilted cone is off-centre)
             V0 = np.array(cls().mesh.vertices, dtype=float) @ geo.rot(*irot).T
             V0 = V0 / (V0.max(axis=0) - V0.min(axis=0))
-            if V0.shape != V.shape or np.abs(V0 - V).max() > 1e-9:
+            if V0.shape != V.shape or np.abs(V0 - V).max() > 1e-6:  # (float round-off reaches 3e-9)
                 raise core.HarnessError("initial_rotation: unit mesh is not the rotated, rescaled primitive")
         solid = geo.Solid.convex_from_mesh(V, F)
         if solid.parts[0].convexity_defect() > 1e-9:
